@@ -712,6 +712,15 @@ def tie_explains(sc, a, b, run=None):
             if liab is not None and "liability has more than 2dp" in (o.violation_msg or "") and round(liab, 2) != liab \
                     and abs(round(liab, 2) - liab) < 1e-9:
                 return True
+    if run is not None:
+        # a starting-price LAY is sized liability / (sp - 1), rounded to 2dp by the code: at an exact half-penny tie the
+        # binary value decides (round(1.425, 2) == 1.43) where exact half-even gives 1.42
+        for o in run.orders:
+            ot = o.order_type
+            if ot.ORDER_TYPE.name in ("MARKET_ON_CLOSE", "LIMIT_ON_CLOSE") and o.side == "LAY" and o.simulated.matched:
+                sp = frac(o.simulated.matched[0][1])
+                if sp != 1 and common.is_tie2(frac(ot.liability) / (sp - 1)):
+                    return True
     xs, ys = re.split(r"([ ,])", a), re.split(r"([ ,])", b)
     if len(xs) != len(ys):
         return False
